@@ -238,6 +238,9 @@ def op_pool(r, tc):
         "bool": lambda a: a.bool(),
         "numpy": lambda a: torch.from_numpy(a.numpy()),
         "deepcopy": lambda a: copy.deepcopy(a),
+        "parameter": lambda a: torch.nn.Parameter(a, requires_grad=False),
+        "parameter_data": lambda a: torch.nn.Parameter(a, requires_grad=False).data,
+        "detach_twice": lambda a: a.detach().detach(),
         "len": lambda a: len(a),
         "iter": lambda a: list(a),
         "size_numel": lambda a: (tuple(a.size()), a.numel(), a.dim(), str(a.dtype)),
@@ -519,4 +522,23 @@ def run(ctx):
                         ctx.nontrivial(bits, shape, lname, fk)
                     if ctx.counters["cases"] % 67 == 0:
                         ctx.sample(dict(desc, payload_shape=list(payload.shape)))
+    # 3. leading dimensions beyond any block a chunked implementation would take at once
+    for bits in (2, 4):
+        for lead in (513, 1030, 4099):
+            for trail in ((), (3,)):
+                k += 1
+                if not ctx.mine(k):
+                    continue
+                shape = (lead,) + trail
+                t = fill(rng, "random", shape, bits)
+                desc = dict(kind="roundtrip_large", bits=bits, shape=list(shape), layout="contiguous", fill="random")
+                if not ctx.case(desc):
+                    continue
+                P, payload = roundtrip(t, bits, desc)
+                if P is None:
+                    continue
+                routes(payload, bits, desc)
+                packed_ops(P, t, bits, desc)
+                ctx.count("large_leading_dimensions")
+                ctx.nontrivial(bits, shape, "contiguous", "random")
     ext._lib = None
